@@ -273,6 +273,35 @@ func (w *World) build(i int, in Inst) *Built {
 	att := func(name string) func(failsafe.ExecutionEvent[int]) {
 		return func(e failsafe.ExecutionEvent[int]) { rec.add(rec.Attempt(i, name, e.ExecutionAttempt)) }
 	}
+	if in.Plain {
+		switch in.Kind {
+		case "retry":
+			b.Pol = retrypolicy.WithDefaults[int]()
+			return b
+		case "cache":
+			b.Pol = cachepolicy.With[int](w.Cache)
+			return b
+		case "bulkhead":
+			b.BH = bulkhead.With[int](uint(in.Max))
+			b.Pol = b.BH
+			return b
+		case "timeout":
+			b.Pol = timeout.With[int](time.Hour)
+			return b
+		case "hedge":
+			b.Pol = hedgepolicy.WithDelay[int](time.Hour)
+			return b
+		case "limiter":
+			if in.Smooth {
+				b.RL = ratelimiter.SmoothWithMaxRate[int](time.Duration(in.Unit))
+			} else {
+				b.RL = ratelimiter.Bursty[int](uint(in.Per), time.Duration(in.Unit))
+			}
+			ratelimiter.VerifSetStopwatch[int](b.RL, func() time.Duration { return time.Duration(w.Now) })
+			b.Pol = b.RL
+			return b
+		}
+	}
 	switch in.Kind {
 	case "retry":
 		rb := retrypolicy.Builder[int]()
@@ -391,6 +420,29 @@ func (w *World) build(i int, in Inst) *Built {
 		b.Pol = b.CB
 	case "fallback":
 		v, e := in.FbVal, ErrByName[in.FbErr]
+		fbFn := func(exec failsafe.Execution[int]) (int, error) {
+			en := rec.Attempt(i, "fallback.fn", exec)
+			en.Canceled = exec.IsCanceled()
+			rec.add(en)
+			if w.FallbackHook != nil {
+				w.FallbackHook(i, exec)
+			}
+			if f := cancelOf(exec.Context()); in.FbCancel && f != nil {
+				f()
+			}
+			return v, e
+		}
+		if in.Plain {
+			switch in.FbKind {
+			case "result":
+				b.Pol = fallback.WithResult[int](v)
+			case "error":
+				b.Pol = fallback.WithError[int](e)
+			default:
+				b.Pol = fallback.WithFunc(fbFn)
+			}
+			return b
+		}
 		var fb fallback.FallbackBuilder[int]
 		switch in.FbKind {
 		case "result":
@@ -398,18 +450,7 @@ func (w *World) build(i int, in Inst) *Built {
 		case "error":
 			fb = fallback.BuilderWithError[int](e)
 		default:
-			fb = fallback.BuilderWithFunc(func(exec failsafe.Execution[int]) (int, error) {
-				en := rec.Attempt(i, "fallback.fn", exec)
-				en.Canceled = exec.IsCanceled()
-				rec.add(en)
-				if w.FallbackHook != nil {
-					w.FallbackHook(i, exec)
-				}
-				if f := cancelOf(exec.Context()); in.FbCancel && f != nil {
-					f()
-				}
-				return v, e
-			})
+			fb = fallback.BuilderWithFunc(fbFn)
 		}
 		applyHandle[fallback.FallbackBuilder[int]](fb, in.Conds)
 		if on("OnSuccess") {
